@@ -172,4 +172,39 @@ pub mod vx_export {
         let h_ok = matches!(&hr, Ok(r) if !r.is_empty() && r[0].version == n);
         Ok((l_ok, h_ok))
     }
+
+    /// C05 scan: for a leaf set (16-bit patterns extended with zeros to 256 bits) and a query label, every node on the
+    /// root path that the server could claim as "longest prefix": returns (anchor_len, is_deepest, accepted) per candidate,
+    /// plus whether the query is a member. Proofs are assembled from real nodes (get_non_membership_proof of the
+    /// anchor's own label, then re-targeted at the query label).
+    pub async fn c05_anchor_scan<TC: Configuration>(leaves: &[u16], query: u16) -> Result<(bool, Vec<(u32, bool, bool)>), AkdError> {
+        fn l16(p: u16) -> NodeLabel {
+            let mut v = [0u8; 32];
+            v[0] = (p >> 8) as u8;
+            v[1] = (p & 0xff) as u8;
+            NodeLabel::new(v, 256)
+        }
+        let db = StorageManager::new_no_cache(AsyncInMemoryDatabase::new());
+        let mut azks = Azks::new::<TC, _>(&db).await?;
+        let set: Vec<AzksElement> = leaves.iter().enumerate().map(|(i, p)| AzksElement { label: l16(*p), value: AzksValue([(i + 1) as u8; 32]) }).collect();
+        azks.batch_insert_nodes::<TC, _>(&db, set, InsertMode::Directory, AzksParallelismConfig::disabled()).await?;
+        let root_hash = azks.get_root_hash::<TC, _>(&db).await?;
+        let q = l16(query);
+        let member = leaves.contains(&query);
+        // the deepest matching node = anchor of the honest proof
+        let honest = azks.get_non_membership_proof::<TC, _>(&db, q).await?;
+        let deepest_len = honest.longest_prefix.label_len;
+        let mut res = vec![];
+        let mut seen = std::collections::BTreeSet::new();
+        for k in 0..=256u32 {
+            let cand = q.get_prefix(k);
+            let mut p = match azks.get_non_membership_proof::<TC, _>(&db, cand).await { Ok(p) => p, Err(_) => continue };
+            if p.longest_prefix != cand || !seen.insert(k) { continue; }
+            if k == 256 { continue; } // the leaf itself is not an anchor candidate with two children
+            p.label = q;
+            let accepted = verify_nonmembership_for_tests_only::<TC>(root_hash, &p).is_ok();
+            res.push((k, !member && k == deepest_len, accepted));
+        }
+        Ok((member, res))
+    }
 }
